@@ -197,7 +197,8 @@ def run(report, tier):
                           overrides=None if tier == 'thorough' else {'ObjCands': '<- MC_ObjCandsQ'})
     check_code_table(r.log)
     if tier == 'thorough':
-        apirun.run_config(report, 'MC_C05', cfg='MC_C05T', observer=observer, report_kinds=(), tag='T')
+        # maximise as well, a third literal, and C05_LPDenotes model-checked on the grid (the quick objective set keeps TLC within budget)
+        apirun.run_config(report, 'MC_C05', cfg='MC_C05T', observer=observer, report_kinds=(), tag='T', overrides={'ObjCands': '<- MC_ObjCandsQ'}, timeout=5400)
     return report.finish(
         rule='every program expression -> comparison -> Problem over the C05 signature of linear spellings: for each problem optyx treats '
              'as linear, LinearProgramExtractor.extract (variables, c, sense, A_ub, b_ub, A_eq, b_eq, bounds), extract_constant_term and '
